@@ -14,17 +14,17 @@ import (
 // type-and-field granularity, closed over the in-repo call graph. They decide
 // which guard facts a call may invalidate.
 type Summaries struct {
-	Prog  *load.Prog
-	Mod   map[*types.Func]map[string]bool
-	Read  map[*types.Func]map[string]bool
+	Prog   *load.Prog
+	Mod    map[*types.Func]map[string]bool
+	Read   map[*types.Func]map[string]bool
 	ByName map[string]*types.Func
 	// function literals and method values by signature, for dynamic calls
 	DynMod map[string]map[string]bool
 	// repo interface method -> implementing methods (non-test)
 	Impls map[*types.Func][]*types.Func
 	// Pure: in-repo functions that write nothing and call only pure code (two calls with equal arguments agree)
-	Pure  map[*types.Func]bool
-	reach map[string]map[string]bool
+	Pure     map[*types.Func]bool
+	reach    map[string]map[string]bool
 	curFresh map[types.Object]bool
 	// hitFresh: the fresh locals an external mutator wrote through during the last ExternalWrites call
 	hitFresh []types.Object
